@@ -165,8 +165,46 @@ def _task_actisense(args):
     return n, bad
 
 
+def _task_fast_header(args):
+    """the addressing and priority a reassembled fast-packet message reports are those of ITS OWN frames' identifiers,
+    whatever an earlier (truncated, orphaned or complete) transmission on the same stream carried"""
+    entry, = args
+    bad, n = [], 0
+    payload_a = bytes([1, 0x20]) + bytes(range(40, 52))
+    payload_b = bytes([1, 0x40]) + bytes(range(60, 70))
+
+    def feed(dec, ident, data):
+        if entry == "ebyte":
+            return call(dec.decode_tcp, wire.ebyte_packet(ident, data))
+        if entry == "usb":
+            return call(dec.decode_usb, wire.usb_packet(ident, data))
+        return call(dec.decode_yacht_devices_string, wire.yd_line(ident, data))
+    for pgn, dsts in ((126720, (0, 9, 255)), (130816, (255,))):
+        for src in (0, 5):
+            for dst in dsts:
+                for p1 in range(8):
+                    for p2 in range(8):
+                        for disturbance in ("first_frame", "continuation", "two_of_three", "complete"):
+                            dec = NMEA2000Decoder()
+                            id1, id2 = wire.can_id(p1, pgn, src, dst), wire.can_id(p2, pgn, src, dst)
+                            fa = wire.fast_frames(2, payload_a)
+                            pre = {"first_frame": fa[:1], "continuation": fa[1:2], "two_of_three": fa[:2], "complete": fa}[disturbance]
+                            for fr in pre:
+                                feed(dec, id1, fr)
+                            back = None
+                            for fr in wire.fast_frames(5, payload_b):
+                                back = feed(dec, id2, fr)
+                            n += 1
+                            exp = (pgn, src, dst, p2)
+                            got = (back.PGN, back.source, back.destination, back.priority) if back is not None and not isinstance(back, str) else back
+                            if got != exp and len(bad) < 20:
+                                bad.append(("fast_packet_header:" + entry, (p2, pgn, src, dst), got,
+                                            f"{exp} (earlier transmission on the stream: {disturbance} with priority {p1})"))
+    return n, bad
+
+
 def _dispatch(t):
-    return {"ids": _task_ids, "idlist": _task_idlist, "tuples": _task_tuples, "public": _task_public, "acti": _task_actisense}[t[0]](t[1])
+    return {"ids": _task_ids, "idlist": _task_idlist, "tuples": _task_tuples, "public": _task_public, "acti": _task_actisense, "fasthdr": _task_fast_header}[t[0]](t[1])
 
 
 def run(ctx):
@@ -201,6 +239,8 @@ def run(ctx):
     step = 16 if ctx.thorough else 32
     for i in range(0, 256, step):
         tasks.append(("acti", (list(range(i, i + step)) if ctx.thorough else list(range(i, i + step, 2)) + [255],)))
+    for entry in ("ebyte", "usb", "yd"):
+        tasks.append(("fasthdr", (entry,)))
     results = common.pmap(_dispatch, tasks)
     vios = []
     counts = {}
@@ -220,7 +260,7 @@ def run(ctx):
                     {"identifier": hex(wire.can_id(6, 130816, 255, 17)), "parsed": list(wire.parse_id(wire.can_id(6, 130816, 255, 17)))}],
         "per_part": counts, "identifier_space": space, "direct_helpers_found": direct,
         "bound_completed": space + "; canonical + non-canonical tuples on a boundary grid; public packet paths for every encodable PGN x 36 "
-                                   "addressings; Actisense header over " + ("all" if ctx.thorough else "half of the") + " sources x all destinations x 8 priorities",
+                                   "addressings; reassembled fast-packet headers after 4 kinds of earlier transmission x 8 x 8 priorities x 3 formats; Actisense header over " + ("all" if ctx.thorough else "half of the") + " sources x all destinations x 8 priorities",
         "exhaustive": True,
     }
     return {"coverage": cov, "violations": vios,
@@ -238,6 +278,9 @@ def replay(ctx, rep):
         prio, pgn, src, dst = inp
         ident = build(pgn, src, dst, prio)
         bad = [] if ident == wire.can_id(prio, pgn, src, dst) and parse(ident) == (pgn, src, dst if ((pgn >> 8) & 0xFF) < 240 else 255, prio) else [(c["kind"], inp, ident, None)]
+    elif c["kind"].startswith("fast_packet_header:"):
+        n, bad = _task_fast_header((c["kind"].split(":")[1],))
+        bad = [b for b in bad if list(b[1]) == list(inp)][:1] or bad[:1]
     else:
         return []
     return [{"kind": k, "facts": {}, "detail": f"got {g} expected {w}", "case": c} for k, i, g, w in bad]
